@@ -229,7 +229,7 @@ func (c *Trait) PrepareRead(ctx context.Context, cacheEntry *TraitEntry, found b
 		}
 	}
 
-	if cacheEntry.E != 0 && cacheEntry.E < now {
+	if e := atomic.LoadInt64(&cacheEntry.E); e != 0 && e < now {
 		if c.Log.logDebug != nil {
 			c.Log.logDebug(ctx, "cache key expired", "name", c.Config.Name)
 		}
@@ -391,7 +391,7 @@ func (e errExpired) Value() interface{} {
 }
 
 func (e errExpired) ExpiredAt() time.Time {
-	return tsTime(e.entry.E)
+	return tsTime(atomic.LoadInt64(&e.entry.E))
 }
 
 func (e errExpired) Is(err error) bool {
